@@ -171,6 +171,9 @@ struct Walk<'a> {
     ref_t: Vec<u64>,
     asg_t: Vec<u64>,
     emu_rbw: Vec<bool>,
+    /// read, textually unassigned bits whose later write went unflagged
+    /// because the write also covers a read bit that is already assigned
+    emu_overlap: Vec<u64>,
     emu_ub_inner: Vec<u64>,
     reads: &'a mut Reads,
     has_full_case_nodefault: bool,
@@ -270,8 +273,13 @@ impl<'a> Walk<'a> {
                     let mut cw = cont_k.clone();
                     cw[v] |= m;
                     self.reads_of(e, lv, false, &cw);
-                    if self.comb && self.ref_t[v] & m != 0 && self.ref_t[v] & m & self.asg_t[v] == 0 {
-                        self.emu_rbw[v] = true;
+                    if self.comb && self.ref_t[v] & m != 0 {
+                        let rm = self.ref_t[v] & m;
+                        if rm & self.asg_t[v] == 0 {
+                            self.emu_rbw[v] = true;
+                        } else {
+                            self.emu_overlap[v] |= rm & !self.asg_t[v];
+                        }
                     }
                     self.must[v] |= m;
                     self.may[v] |= m;
@@ -362,6 +370,7 @@ struct CombRes {
     rbw_loose: Vec<u64>,
     strict_items: Vec<(usize, u64, bool, u64)>,
     emu_rbw: Vec<bool>,
+    emu_overlap: Vec<u64>,
     emu_ub_inner: Vec<u64>,
     full_case: bool,
 }
@@ -384,6 +393,7 @@ fn walk_proc(vars: &[VarDecl], body: &[Stmt], comb: bool, ft: bool, reads: &mut 
         ref_t: vec![0; n],
         asg_t: vec![0; n],
         emu_rbw: vec![false; n],
+        emu_overlap: vec![0; n],
         emu_ub_inner: vec![0; n],
         reads,
         has_full_case_nodefault: false,
@@ -397,6 +407,7 @@ fn walk_proc(vars: &[VarDecl], body: &[Stmt], comb: bool, ft: bool, reads: &mut 
         rbw_loose: w.rbw_loose,
         strict_items: w.strict_items,
         emu_rbw: w.emu_rbw,
+        emu_overlap: w.emu_overlap,
         emu_ub_inner: w.emu_ub_inner,
         full_case: w.has_full_case_nodefault,
     }
@@ -519,10 +530,10 @@ pub fn analyse(dsg: &Design) -> Analysis {
                 ""
             } else if items.iter().all(|i| i.2) {
                 "condition-read-not-counted"
-            } else if items.iter().any(|i| !i.2 && i.3 != 0) {
-                "assigned-on-other-path"
-            } else {
+            } else if comb_a.iter().any(|c| c.emu_overlap[v] & c.rbw_strict[v] != 0) {
                 "partial-overlap"
+            } else {
+                "assigned-on-other-path"
             }
         };
         if ma {
